@@ -31,8 +31,8 @@
 (*   quiet     the harness has seen everything it expected: nothing is     *)
 (*             left to do for the server, the command or the client        *)
 (* Not logged, inferred by TLC: every step of the server (ServerBut, the   *)
-(* failing SrvStart, SrvTimer) and the discarding of frames by a client    *)
-(* that has gone.                                                          *)
+(* failing SrvStart, SrvTimer), the death of the command by SIGKILL and    *)
+(* the discarding of frames by a client that has gone.                     *)
 (***************************************************************************)
 EXTENDS WsBridge
 
@@ -70,9 +70,12 @@ TSig == IsEvent("sig") /\ E.s = "INT" /\ ChildInt
 \* after the command is gone)
 TStdin == /\ IsEvent("stdin") /\ ch # "none"
           /\ chGot' = chGot \o E.ids /\ IsPrefixOf(chGot', sinHist)
-          /\ UNCHANGED <<cfgv, reqv, srvv, stopped, envv, ch, chenv, chEof, chSigs, chOut, pendInt, pendKill, spawns, pipv, inv, outv, conv, cliv, synv, dirty, nw>>
+          /\ UNCHANGED <<cfgv, reqv, srvv, stopped, envv, ch, chenv, chEof, chSigs, chOut, pendInt, pendKill, spawns, leaving, pipv, inv, outv, conv, cliv, synv, dirty, nw>>
 TStdinEof == IsEvent("stdineof") /\ ChildEof
-TPGone == IsEvent("pgone") /\ IF E.how = "killed" THEN ChildKilled ELSE ch \in {"dead", "reaped"} /\ Same
+\* the side channel of the command has ended: it is gone - by its own announced exit, by the exit it
+\* was told to make, or (killed) by the SIGKILL of the server, a step TLC infers because serveWS
+\* may return before the harness notices
+TPGone == IsEvent("pgone") /\ ch \in {"dead", "reaped"} /\ Same
 TFrame == IsEvent("frame") /\ cst # "gone" /\ s2c # <<>> /\ Head(s2c).k = E.k /\ Head(s2c).p = E.ids /\ ClientRecv
 TCFrame == /\ IsEvent("cframe") /\ cst # "gone" /\ s2c # <<>>
            /\ Head(s2c).k = "close" /\ Head(s2c).code = E.code /\ Head(s2c).why = E.why /\ ClientRecv
@@ -95,6 +98,7 @@ Logged == \/ TCReq \/ TCHead \/ TInner \/ TSpawn \/ TCSend \/ TCClose \/ TCDrop 
 Inferred == \/ ServerBut
             \/ ~cmdok /\ SrvStart
             \/ SrvTimer
+            \/ ChildKilled
             \/ cst = "gone" /\ ClientRecv
 TNext == TScript \/ ((Logged \/ (Inferred /\ UNCHANGED l)) /\ UNCHANGED hisv)
 TSpec == TInit /\ [][TNext]_tvars
